@@ -366,8 +366,12 @@ func fencingQuorumFn(h *H, rule string) *ssa.Function {
 		}
 		hasGo := false
 		ir.Instrs(fn, func(in ssa.Instruction) {
-			if _, ok := in.(*ssa.Go); ok {
+			if g, ok := in.(*ssa.Go); ok {
 				hasGo = true
+				// the goroutine body may be an extracted method instead of a literal
+				if h.P.CallStaticallyReaches(g, h.P.MatchPred(ir.Callee{Pkg: "coordinator/rpc", Recv: "Provider", Name: "NewTerm"})) {
+					spawns = true
+				}
 			}
 		})
 		if spawns && hasGo {
